@@ -557,7 +557,9 @@ class Evaluator:
         sub = self.r["subs"][k]
         vals = []
         for p, a in zip(sub["params"], args):
-            if p["k"] == "ref":
+            if a[0] == "refparam":
+                vals.append(self.frames[-1]["params"][a[1]])  # the caller forwards its own by-reference parameter (a Cell)
+            elif p["k"] == "ref":
                 vals.append(self.cell(a[1]))  # ["ref", vid]
             elif p["k"] == "abi":
                 vals.append(self.load_var(a[1]))  # ["abi", vid] passed by value
